@@ -292,7 +292,8 @@ def check_computed(case):
     st, other = state(fields, rows, {'x': 'number', 'y': 'number'})
     other[0].update({'x': 1, 'y': 2})
     st.rows[0][0].update({'x': 1, 'y': 2})
-    spec = {'target': 'new', 'operation': op, 'source': ['x', 'y']}
+    srcs = case.get('sources', ['x', 'y'])          # one, two or three source columns (y may be listed twice)
+    spec = {'target': 'new', 'operation': op, 'source': list(srcs)}
     if op == 'constant':
         spec = {'target': 'new', 'operation': 'constant', 'with': 'K'}
     elif op == 'join':
@@ -301,10 +302,10 @@ def check_computed(case):
         spec = {'target': 'new', 'operation': 'format', 'with': '{z}:{x}'}
     elif op == 'callable':
         spec = {'target': {'name': 'new', 'type': 'string'}, 'operation': lambda row: 'c:%s' % row['z']}
-    label = 'add_computed_field(%s) on rows %r' % (op, vals)
+    label = 'add_computed_field(%s over %r) on rows %r' % (op, srcs, vals)
 
     def expected(r):
-        vs = [v for v in (r['x'], r['y']) if v is not None]
+        vs = [v for v in (r[c] for c in srcs) if v is not None]
         if op == 'constant':
             return 'K'
         if op == 'format':
@@ -466,6 +467,10 @@ def cases(tier):
         for n in (1, 2):
             for vals in itertools.product(pairs, repeat=n):
                 out.append({'proc': 'computed', 'op': op, 'vals': [list(v) for v in vals]})
+    for op in ('sum', 'avg', 'min', 'max', 'multiply', 'join'):
+        for srcs in (['x'], ['y'], ['x', 'y', 'x']):
+            for vals in itertools.product(pairs, repeat=1):
+                out.append({'proc': 'computed', 'op': op, 'vals': [list(v) for v in vals], 'sources': srcs})
     texts = ['abc', 'aXc', '', None, 'a.c']
     patsets = [[['a', 'z']], [['a.c', 'Q']], [['(a)(.)', r'\2\1']], [['a', 'b'], ['b', 'c']], [['c$', '']], [['x*', '-']],
                # a find without metacharacters is still a regex, its replacement still a template
